@@ -80,9 +80,9 @@ CHECKS = {
  "C02": dict(
    text="KERNEL CLAIM plus a concrete side-condition. Solver-decided: bounded symbolic model checking of the identifier synthesis in gen/names.go (pascal, pascalSpecial, pascalNonEmpty, camel, "
         "camelSpecial, cleanSpecial with go/token.IsIdentifier, unicode case mapping and the naming rule table executed from SSA): for every ASCII name of 0..3 (4) bytes the result is an error or satisfies "
-        "the Go identifier grammar, is not a keyword and not '_'. NOT solver-decided (no symbolic dimension; the whole generator and the Go type checker are out of reach): a matrix of 46 hostile/feature specs "
+        "the Go identifier grammar, is not a keyword and not '_'. NOT solver-decided (no symbolic dimension; the whole generator and the Go type checker are out of reach): a matrix of about 100 hostile/feature specs "
         "(names, enum edge values, shared generic responses, object-shaped parameters per location/style, pattern+default responses, 10 feature configurations incl. client-only / server-only / validation / "
-        "example tests) is generated by the tree's generator in every run and every accepted package - and its generated tests - must go build; a generator panic counts as a violation. One known finding.",
+        "example tests) is generated by the tree's generator in every run and every accepted package - and its generated tests - must go build; a generator panic counts as a violation. Three known findings.",
    design="4 C02", technique="symbolic execution of go/ssa + SMT over all short names (kernel); concrete generate-and-build matrix as a side-condition"),
  "C07": dict(
    text="Bounded symbolic model checking of (a) jsonpointer.ResolveCtx (the cycle/depth mechanism): from every pre-state with 0..3 distinct in-progress references built through the real AddKey, one "
